@@ -43,7 +43,7 @@ def _cases(p):
 
 def runs(tier, seed):
     p = THOROUGH if tier == "thorough" else QUICK
-    return [Run("snapshot", cases=_cases(p), params=p, timeout=3600 if tier == "thorough" else 900)]
+    return [Run("snapshot", cases=_cases(p), params=p, timeout=14400 if tier == "thorough" else 3600)]
 
 
 def begin_shard(st):
